@@ -129,7 +129,7 @@ def eval_case(case) -> Outcome:
         for k in range(1, len(lp) + 1):
             want.add(lp[:k])
     have = {p for p, z in S.walk(master) if f"{z.name}/{S.DI}" in z.targets}
-    for p in sorted(want - have):
+    for p in sorted(want - have - S.container_paths(case)):
         out.fail("C01.zone_without_target", f"zone {'/'.join(p)} implied by the labels has no DI target in the returned tree")
     return out
 
@@ -171,6 +171,7 @@ def strategy(tier):
         G.problem(min_streams=2, max_streams=5, iso_share=0.5, with_utilities=False),
         with_explicit_tree(G.problem(min_streams=2, max_streams=mx, multi_zone=True)),
         hot_end(G.problem(min_streams=2, max_streams=mx, shape="mixed", iso_share=0.3, options=opts)),
+        G.community_problem(),
     )
 
 
